@@ -3,6 +3,8 @@ import algebra
 
 
 def run(v, tier, seed, replay):
+    if replay:
+        return algebra.replay(v, replay, 512)
     ops = ["icom", "acom", "trace"]
     npat = 3 if tier == "quick" else 8
     algebra.explore_and_replay(v, "C02", [dict(dims=[2, 3, 4, 5, 6], ops=ops, invs=["LawBilinear"], npat=npat)], tolf=512)
